@@ -35,6 +35,14 @@ pub enum Shape {
     ClosureHeavy,
     AllocationHeavy,
     StringPortLoop,
+    /// every iteration assigns a global: the running thread itself goes through a world stop
+    GlobalSetLoop,
+    /// every iteration assigns a global and allocates boxes (world stops for assignments and collections)
+    GlobalSetAndAllocate,
+    /// every iteration defines a global through eval
+    DefineLoop,
+    /// a loop that requests collections
+    CollectLoop,
 }
 
 pub const SHAPES: &[Shape] = &[
@@ -57,12 +65,20 @@ pub const SHAPES: &[Shape] = &[
     Shape::ClosureHeavy,
     Shape::AllocationHeavy,
     Shape::StringPortLoop,
+    Shape::GlobalSetLoop,
+    Shape::GlobalSetAndAllocate,
+    Shape::DefineLoop,
+    Shape::CollectLoop,
 ];
 
 #[derive(Clone, Debug, Serialize, Deserialize)]
 pub struct Case17 {
     pub shape: Shape,
     pub after_steps: u64,
+    /// the request is raised after the interrupt check of its step (the step's instruction runs with the
+    /// request pending, as with a request from another thread), not right before it
+    #[serde(default)]
+    pub late: bool,
     /// size parameter of the shape (length of the list a callback loop walks, depth of the
     /// recursion, work per request)
     pub k: u64,
@@ -95,6 +111,10 @@ fn program(c: &Case17) -> (String, String) {
         Shape::LoopInsideWindThunk => ("(define (lp i) (lp (+ i 1)))".into(), "(dynamic-wind (lambda () 0) (lambda () (lp 0)) (lambda () 0))"),
         Shape::ClosureHeavy => ("(define (compose f g) (lambda (x) (f (g x))))\n(define (lp f i) (lp (if (= 0 (modulo i 50)) (lambda (x) x) (compose f (lambda (x) (+ x 1)))) (+ i (f 0))))".into(), "(lp (lambda (x) 1) 1)"),
         Shape::AllocationHeavy => ("(define (lp acc i) (lp (if (> i 1000) (list) (cons (vector i (box i)) acc)) (if (> i 1000) 0 (+ i 1))))".into(), "(lp '() 0)"),
+        Shape::GlobalSetLoop => ("(define g 0)\n(define (lp) (set! g (+ g 1)) (lp))".into(), "(lp)"),
+        Shape::GlobalSetAndAllocate => (format!("(define g 0)\n(define keep (box '()))\n(define (lp i) (set! g (+ g 1)) (set-box! keep (if (> i {}) '() (cons (vector i (box i)) (unbox keep)))) (lp (if (> i {}) 0 (+ i 1))))", 100 + k % 3000, 100 + k % 3000), "(lp 0)"),
+        Shape::DefineLoop => ("(define (lp i) (eval `(define fresh-global ,i)) (lp (+ i 1)))".into(), "(lp 0)"),
+        Shape::CollectLoop => ("(define (lp i) (when (= 0 (modulo i 50)) (#%gc-collect)) (lp (+ i (unbox (box 1)))))".into(), "(lp 0)"),
         Shape::StringPortLoop => ("(define (lp i) (let ((p (open-output-string))) (write i p) (lp (+ i (string-length (get-output-string p))))))".into(), "(lp 0)"),
     };
     (defs, call.to_string())
@@ -109,11 +129,11 @@ pub fn check(ctx: &Ctx, ws: &mut Workers, c: &Case17, counting: bool) -> PropRes
     let (defs, call) = program(c);
     for cfg in [Config::jit_off(), Config::default_cfg()] {
         let jit_on = cfg.0.is_empty();
-        let shown = format!("config: {}\nshape: {:?}  interrupt requested after {} script steps\n{}\n{}", cfg.label(), c.shape, c.after_steps, defs, call);
+        let shown = format!("config: {}\nshape: {:?}  interrupt requested {} {} script steps\n{}\n{}", cfg.label(), c.shape, if c.late { "right after the check of step" } else { "after" }, c.after_steps, defs, call);
         let mut attempt = 0;
         loop {
             attempt += 1;
-            let steps = vec![Step::Eval { src: defs.clone() }, Step::EvalInterrupt { src: call.clone(), after_steps: c.after_steps }, Step::Eval { src: PROBE.to_string() }];
+            let steps = vec![Step::Eval { src: defs.clone() }, Step::EvalInterrupt { src: call.clone(), after_steps: if c.late { c.after_steps | (1 << 62) } else { c.after_steps } }, Step::Eval { src: PROBE.to_string() }];
             let mut case = Case::new(steps);
             case.timeout_ms = 12_000 * attempt;
             case.mem_mb = 4096;
@@ -176,6 +196,9 @@ pub fn check(ctx: &Ctx, ws: &mut Workers, c: &Case17, counting: bool) -> PropRes
             }
             if counting {
                 ctx.stats.class(&format!("{}:{:?}", tag, c.shape));
+                if c.late {
+                    ctx.stats.class("request-raised-right-after-a-check");
+                }
                 ctx.stats.class_n(&format!("{}:steps-between-request-and-stop", tag), (end - fired).max(0) as u64);
                 if fired == 0 {
                     ctx.stats.class(&format!("{}:delivered-by-timer", tag));
@@ -233,8 +256,8 @@ pub fn run(ctx: &Ctx, replay: Option<&str>) -> i32 {
         ctx,
         "intr",
         || {
-            (prop::sample::select(SHAPES.to_vec()), prop_oneof![1 => Just(1u64), 1 => Just(2u64), 1 => Just(1000u64), 6 => 1u64..3_000_000], any::<u16>())
-                .prop_map(|(shape, after_steps, k)| Case17 { shape, after_steps, k: k as u64 })
+            (prop::sample::select(SHAPES.to_vec()), prop_oneof![1 => Just(1u64), 1 => Just(2u64), 1 => Just(1000u64), 3 => 1000u64..1040, 5 => 1u64..3_000_000], any::<u16>(), any::<bool>())
+                .prop_map(|(shape, after_steps, k, late)| Case17 { shape, after_steps, k: k as u64, late })
         },
         ctx.n(400, 8000),
         |ws, c, counting| match check(ctx, ws, c, counting) {
